@@ -9,11 +9,15 @@ import (
 var statics = []string{"a", "b", "users", "list", "new"}
 var pnames = []string{"x", "y", "id", "p1", "p2", "p3", "p4", "p5", "p6", "p7", "p8", "p9"}
 var values = []string{"1", "42", "abc", "a", "b", "users", "list", "new", "x1", "2024-01-01",
-	"123e4567-e89b-42d3-a456-426614174000", "3.5", "A", "é", "%41", "a b", "0"}
+	"123e4567-e89b-42d3-a456-426614174000", "3.5", "A", "é", "%41", "a b", "0",
+	// near misses of the enum members: prefixes, suffixes, superstrings
+	"ab", "xb", "usersx", "xusers", "opened", "unclosed", "avoid", "open", "void", "v1x", "xv3", "v2",
+	"123e4567-e89b-62d3-a456-426614174000", "2024-1-01", "12a", "-3.5e2", "1e"}
 
 var consPalette = []ConsT{
 	{Kind: "int"}, {Kind: "int"}, {Kind: "float"}, {Kind: "uuid"}, {Kind: "date"},
-	{Kind: "enum", Arg: "a|b|users"}, {Kind: "regex", Arg: "[a-z]+"}, {Kind: "where", Arg: `\d+`},
+	{Kind: "enum", Arg: "a|b|users"}, {Kind: "enum", Arg: "open|closed|void"}, {Kind: "enum", Arg: "v1|v2|v3"},
+	{Kind: "regex", Arg: "[a-z]+"}, {Kind: "where", Arg: `\d+`},
 	{Kind: "where", Arg: "[a-c]+"}, {Kind: "datetime"},
 }
 
